@@ -112,6 +112,11 @@ def check_tree(ctx, nodes, tags, ch, s, case, bounds_all=True, rng=None):
                     kw["stop"] = lambda nd, stop=stop: idmap[id(nd)] in stop
                 if ml is not None:
                     kw["maxlevel"] = ml
+                    if (s + hi + si) % 3 == 0:
+                        from .c06 import int_like
+
+                        kw["maxlevel"] = int_like(ml)
+                        ctx.count("C14.maxlevel_int_subclass")
                 brange = [None] + list(range(0, cnt + 3))
                 pairs = [(a, b) for a in brange for b in brange] if bounds_all else [(None, None), (cnt, cnt), (cnt + 1, None), (None, cnt - 1 if cnt else 0), (0, 0)]
                 for mn, mx in pairs:
